@@ -1,8 +1,63 @@
 import NetaddrVerif.Model.Proto
-/-! Driver ops of property C01 (stub: filled in by the property's model). -/
+import NetaddrVerif.Model.AddrParse
+/-! Driver ops of property C01 and of the modelled platform text functions.
+    `aton S` · `pton4 S` · `pton6 S` · `ntop6 V` (platform);
+    `ip_parse be S ver flags` · `ip_print be F V dialect` · `valid4 be S flags` · `valid6 be S` ·
+    `fb_pton F S` · `fb_ntop F V`. -/
 namespace NV.Driver.C01
-open NV NV.Proto
+open NV NV.Proto NV.AddrParse
 
-def handle (_op : String) (_args : List String) : Option String := none
+def parseBe : String → Option Backend
+  | "pl" => some .platform
+  | "fb" => some .fallback
+  | _ => none
+
+def parseOptNat (s : String) : Option (Option Nat) :=
+  if s == "-" then some none else s.toNat?.map some
+
+def parseDialect : String → Option Dialect
+  | "compact" => some .compact
+  | "full" => some .full
+  | "verbose" => some .verbose
+  | _ => none
+
+def showOptV : Option Nat → String
+  | some v => toString v
+  | none => "!"
+
+def handle (op : String) (args : List String) : Option String :=
+  match op, args with
+  | "aton", [s] => do pure (showOptV (Text4.aton (← parseStr s)))
+  | "pton4", [s] => do pure (showOptV (Text4.pton4 (← parseStr s)))
+  | "pton6", [s] => do pure (showOptV (Text6.pton6 (← parseStr s)))
+  | "ntop6", [v] => do pure (showStr (Text6.ntop6 (← v.toNat?)))
+  | "fb_pton", [f, s] => do
+    let f ← f.toNat?; let s ← parseStr s
+    pure (showOptV (if f = 4 then FbSocket.pton4 s else FbSocket.pton6 s))
+  | "fb_ntop", [f, v] => do
+    let f ← f.toNat?; let v ← v.toNat?
+    pure (showStr (if f = 4 then FbSocket.ntoa v else FbSocket.ntop6 v))
+  | "ip_parse", [be, s, ver, flags] => do
+    let be ← parseBe be; let s ← parseStr s; let ver ← parseOptNat ver; let flags ← flags.toNat?
+    match ipAddress be s ver flags with
+    | .ok a => pure s!"{a.ver} {a.val}"
+    | .error e => pure (showErr e)
+  | "ip_print", [be, f, v, d] => do
+    let be ← parseBe be; let f ← f.toNat?; let v ← v.toNat?
+    if d == "-" then pure (showStr (intToStr be f v))
+    else
+      let d ← parseDialect d
+      pure (showStr (if f = 4 then Text4.ntoa v else intToStr6 be d v))
+  | "valid4", [be, s, flags] => do
+    let be ← parseBe be; let s ← parseStr s; let flags ← flags.toNat?
+    match validStr4 be s flags with
+    | .ok b => pure (showBool b)
+    | .error e => pure (showErr e)
+  | "valid6", [be, s] => do
+    let be ← parseBe be; let s ← parseStr s
+    match validStr6 be s with
+    | .ok b => pure (showBool b)
+    | .error e => pure (showErr e)
+  | _, _ => none
 
 end NV.Driver.C01
